@@ -151,14 +151,14 @@ package ingress
 // same batch is synced (additions are merged after removals), deleted ones are not
 //@ spec func ingFullName(i *networking.Ingress) string = i.Namespace + "/" + i.Name
 //@ func (*converter).syncPartial
-//@   props C01
+//@   props C01 C07 C17
 //@   at call QueryLinks#1 assert batch: $arg1 == c.changed.Links && $arg2
 //@   at call TCPServices).RemoveAll#1 assert tcp:   $arg1 == dirtyTCPServices
 //@   at call Hosts).RemoveAll#1 assert hosts: $arg1 == dirtyHosts
 //@   at call RemoveAuthBackendByTarget#1 assert auth: $arg1 == dirtyBacks
 //@   at call Backends).RemoveAll#1 assert backs: $arg1 == dirtyBacks
 //@   at call Userlists).RemoveAll#1 assert users: $arg1 == dirtyUsers
-//@   at call AcmeStorages).RemoveAll#1 assert acme:  $arg1 == dirtyStorages
+//@   at call AcmeStorages).RemoveAll#1 assert acme:  $arg1 == dirtyStorages && calls(SyncIng) == 0
 //@   assume-pre RemoveAuthBackendByTarget sortIngress
 //@   loop 3 invariant added: 0 <= $idx(3) && forall a int :: 0 <= a && a < $idx(3) ==> in(ingFullName(c.changed.IngressesAdd[a]), ingMap) && ingMap[ingFullName(c.changed.IngressesAdd[a])] != nil
 //@   loop 4 entry added: forall a int :: 0 <= a && a < len(c.changed.IngressesAdd) ==> in(ingFullName(c.changed.IngressesAdd[a]), ingMap) && ingMap[ingFullName(c.changed.IngressesAdd[a])] != nil
@@ -214,4 +214,22 @@ package ingress
 //@   assume-pre Mapper).Get
 //@   loop 2 invariant small: hash <= 2147483647
 //@   loop 1 step fresh-id: ep.TargetRef != "" ==> in(ep.PUID, usedPUIDS) && ep.PUID != 0 && forall v int :: v == ep.PUID ==> !$headmem(in(v, usedPUIDS))
+//@ end
+
+// C11 — a re-notified but unchanged global ConfigMap does not force a full sync
+//@ func (*converter).globalConfigNeedFullSync
+//@   props C11
+//@   ensures changed: result == (c.changed.GlobalConfigMapDataNew != nil && !deepEq(iface(c.changed.GlobalConfigMapDataCur), iface(c.changed.GlobalConfigMapDataNew)))
+//@ end
+
+// C15 — a full sync applies the global configuration (which carries the
+// cross-namespace permissions) before any ingress is converted
+//@ count UpdGlobal = (annotations.Updater).UpdateGlobalConfig
+//@ count SyncIng = (*converter).syncIngress
+//@ func (*converter).syncFull
+//@   props C15 C09
+//@   assume-pre sortIngress
+//@   at call syncIngress#1 assert global-first: calls(UpdGlobal) == 1
+//@   at call UpdateGlobalConfig#1 assert before-any: calls(SyncIng) == 0
+//@   loop 1 invariant once: calls(UpdGlobal) == 1
 //@ end
